@@ -8,7 +8,7 @@ import sys
 import time
 import traceback
 
-from . import REPO, VERIF, AnalysisError
+from . import REPO, VERIF, AnalysisError, Decided
 from .cfg import Builder, Policy
 from .effects import Effects
 from .kinds import Kinds
@@ -102,6 +102,10 @@ def main(argv=None):
             print('unknown property', pid)
             return 2
         return run_property(pid, tier, seed)
+    except Decided as exc:
+        print(f'NOTE: analysis stopped early ({exc}); reporting the violation(s) found so far')
+        return exc.chk.finish(explanation='Partial run: a decisive violation was found, then an anchor construct could not be recognised any more.',
+                              rule_text='see DESIGN.md', assumptions=[], not_decided='rules after the point where the analysis stopped')
     except AnalysisError as exc:
         print(f'ANALYSIS-ERROR: {exc}')
         return 2
